@@ -123,3 +123,27 @@ def run(ctx):
     ctx.instance("C13.3", "%d fallible call sites in %d write-executor bodies" % (nres, len(scoped)))
     ctx.obligations += nres
     ctx.discharged += max(nres - len(seen), 0)
+
+    # ---- clause 4: DELETE validates before it mutates ------------------------------------------------------
+    # There is no statement-level savepoint: what a statement wrote into the transaction before it failed stays there (C13.2).  DELETE
+    # avoids that by checking every target (ensure_non_detach_delete_safety can refuse) before the first tombstone.  If the refusal point
+    # is reachable from a tombstone call — e.g. the check moved into the per-node loop — a refused DELETE leaves its earlier targets
+    # deleted in an explicit transaction.
+    ctx.rule("C13.4", "in the DELETE executors the refusing safety check is never reachable from a tombstone call (validate, then mutate)")
+    SAFETY = "nervusdb_query::executor::create_delete_ops::ensure_non_detach_delete_safety"
+    n4 = 0
+    for i, b in sorted(F.bodies.items()):
+        if not i.startswith("nervusdb_query::executor::") or "::tests::" in i:
+            continue
+        checks = [c for c in b.calls() if c.name == SAFETY]
+        if not checks:
+            continue
+        muts = [c for c in b.calls() if c.declared.startswith("nervusdb_query::executor::WriteableGraph::tombstone_") or c.name.split("::")[-1] in ("tombstone_node", "tombstone_edge")]
+        for k, v in enumerate(sorted(checks, key=lambda c: (c.line, c.bb))):
+            n4 += 1
+            before = [m for m in muts if m.target is not None and v.bb in b.reachable([m.target])]
+            ctx.instance("C13.4", "%s: safety check #%d reachable from %d tombstone call(s)" % (i.split("::")[-1], k, len(before)))
+            ctx.oblige(not before, "C13.4", "%s:safety-check#%d-after-mutation" % (i, k),
+                       "DELETE can refuse (relationships still attached) after it already tombstoned earlier targets: in an explicit transaction the refused "
+                       "statement's partial deletes are committed with the next commit", v.loc())
+    ctx.floor("C13.4", "safety checks in DELETE executors", n4, 2)
